@@ -3,3 +3,4 @@ import PkgProofs.Lemmas.Pad
 import PkgProofs.Lemmas.VerOrd
 import PkgProofs.Lemmas.RxSound
 import PkgProofs.Lemmas.Dec
+import PkgProofs.Lemmas.TagLists
